@@ -973,6 +973,7 @@ class Check(PropertyCheck):
             by_key[json.dumps([c['opt'], c['key'], c['fmt'], c['style'], c['value']])] = (c, r)
         nt = 0
         nviol = 0
+        nclass: Dict[bool, int] = {}
         for ci, (c, r) in enumerate(zip(cases, impl)):
             self.count('e2e_fmt_' + c['fmt'])
             self.count('e2e_kind_' + ('exit' if r['runs'][0]['opts'] is None else 'ok'))
@@ -991,7 +992,9 @@ class Check(PropertyCheck):
             elif self.toml_misread(c, r):
                 cc['class'] = 'toml_library_misreads_string'
             nviol += 1
-            if nviol <= 40:
+            nclass['class' in cc] = nclass.get('class' in cc, 0) + 1
+            # violations of a class listed in known_findings must not use up the room of the others
+            if nclass['class' in cc] <= (12 if 'class' in cc else 40):
                 out.append(Violation('oracle', 'option %s, %s: %s' % (c['opt'], c['fmt'], '; '.join(fails))[:900], case=cc,
                                      observed={'file_text': payloads[ci]['files'][fname],
                                                'file_run': _brief(r['runs'][0]), 'cli_run': _brief(r['nofile_runs'][0])}))
